@@ -188,6 +188,17 @@ var ALit = func() Iter[int] {
 	return nil
 }
 `
+	// types the processed file uses but the optimise stage cannot see (it loads the processed files only)
+	fs.Template.SFiles["plain_box.go"] = `package src
+
+import "time"
+
+type PBox struct{ V any }
+
+type PTable map[int]string
+
+func PMk(n int) PBox { return PBox{V: time.Duration(n)} }
+`
 	return fs
 }
 
